@@ -425,7 +425,8 @@ def universe(ctx, n_rand, level, depth=2, big=True):
     while i < n_rand:
         large = big and i % 8 == 7
         t = dsdl.rand_composite(rng, rng.choice([1, depth, depth]), big=large and i % 16 == 15)
-        limit = (4000 if level == 1 else 24000) if large else 400
+        # (decoding a 3000-byte input of a 24000-bit type costs TLC ~10 s per record: a batch of them ran into the validation timeout)
+        limit = (4000 if level == 1 else 8000) if large else 400
         if dsdl.max_bits_body(t) > limit:
             continue
         types.append(t)
